@@ -238,6 +238,7 @@ pub fn draw_plan(r: &mut Rng, gp: &GenParams, present_defs: &[usize], defs: &[De
                 at: r.below(3 * n + 3) as u32,
                 call: r.below(5) as u8,
                 pick: r.below(64) as u32,
+                before_startup: r.chance(1, 12),
             });
         }
     }
